@@ -74,6 +74,13 @@ func propC06(c *Ctx) string {
 	c05Prune(c, "C06/PRUNE")
 	// the filters the backend stores are the filters the client asked for (no normalisation on the way)
 	c20Suback(c, v)
+	// a subscriber keeps receiving only while completed handshakes give their window slot back
+	if ra := c.Rule("C06/ACKRETURN", "TRACE", "the PUBACK/PUBCOMP handler returns exactly one window slot per completed handshake, without blocking", 2); true {
+		ackH, compH := c.handlerOf(ra, "broker", "Puback"), c.handlerOf(ra, "broker", "Pubcomp")
+		if ackH != nil && compH != nil {
+			c16AckReturn(c, v, ra, ackH, compH)
+		}
+	}
 	c.NotDecide("the exact recipient set at runtime for all histories", "topic/payload integrity end to end", "concurrent histories (only lock discipline, see C13/C15)",
 		"which of several matching subscriptions of one client grants the QoS (MatchFirst picks one, allowed by the statement)")
 	c.Assume("topic.Tree.Set replaces the value list (C05/ADDSET)", "instance-insensitive field keys")
